@@ -22,6 +22,15 @@ func is32BitRegister(regName string) bool {
 	}
 }
 
+// is16BitAddrRegister は 16 ビットアドレッシングで使えるレジスタ (BX, BP, SI, DI) かを返す
+func is16BitAddrRegister(regName string) bool {
+	switch regName {
+	case "BX", "BP", "SI", "DI":
+		return true
+	}
+	return false
+}
+
 // GenerateModRM はエンコーディング情報とビットモードに基づいてModR/Mバイトを生成する
 func GenerateModRM(operands []string, modRM *asmdb.Encoding, bitMode cpu.BitMode) ([]byte, error) { // Keep cpu.BitMode
 	if modRM == nil || modRM.ModRM == nil {
@@ -250,7 +259,9 @@ func calculateModRM(mem *ng_operand.MemoryInfo, bitMode cpu.BitMode, regBits byt
 	}
 
 	// --- 16-bit Addressing (Table 2-1) ---
-	if bitMode == cpu.MODE_16BIT {
+	// アドレスサイズを決めるのはアドレス指定に使うレジスタ: 32ビットモードでも [BX+SI] などは
+	// 16ビットの表でエンコードする (67h プレフィックスは Require67h が付ける)
+	if bitMode == cpu.MODE_16BIT || is16BitAddrRegister(mem.BaseReg) || is16BitAddrRegister(mem.IndexReg) {
 		sibByte = 0 // No SIB in 16-bit mode
 		switch {
 		case mem.BaseReg == "BX" && mem.IndexReg == "SI":
